@@ -8,8 +8,11 @@ import (
 	"math/big"
 	"os"
 	"os/exec"
+	"runtime"
+	"strconv"
 	"strings"
 	"sync"
+	"sync/atomic"
 
 	secp256k1 "gitlab.com/yawning/secp256k1-voi"
 	"gitlab.com/yawning/secp256k1-voi/secec"
@@ -32,6 +35,62 @@ import (
 // ColdMain executes one cold-start spec and prints "COLD <hex>"; called by
 // verifrun before anything else touches the library.
 func ColdMain(spec string) {
+	if strings.HasPrefix(spec, "conc|") {
+		coldConcurrent(spec)
+		return
+	}
+	fmt.Printf("COLD %x\n", coldExec(spec))
+}
+
+// coldConcurrent: "conc|G|spec|spec|...": G goroutines are parked on a spinning barrier
+// before anything has touched the library; goroutine g then performs spec[g mod K] as ITS
+// first library call, all at the same instant.  Prints one "COLD" line with the G results.
+func coldConcurrent(spec string) {
+	f := strings.Split(spec, "|")
+	G, _ := strconv.Atoi(f[1])
+	specs := f[2:]
+	if G < 1 || len(specs) == 0 {
+		panic("bad concurrent cold spec")
+	}
+	outs := make([][]byte, G)
+	var ready, goFlag atomic.Int32
+	var wg sync.WaitGroup
+	for g := 0; g < G; g++ {
+		wg.Add(1)
+		go func(g int) {
+			defer wg.Done()
+			defer func() {
+				if p := recover(); p != nil {
+					outs[g] = []byte(fmt.Sprintf("panic: %v", p))
+				}
+			}()
+			ready.Add(1)
+			for goFlag.Load() == 0 {
+				// spin: a goroutine parked on a channel is woken one after the other
+				if ready.Load() < int32(G) {
+					runtime.Gosched()
+				}
+			}
+			outs[g] = coldExec(specs[g%len(specs)])
+		}(g)
+	}
+	for ready.Load() < int32(G) {
+		runtime.Gosched()
+	}
+	goFlag.Store(1)
+	wg.Wait()
+	var sb strings.Builder
+	for g := range outs {
+		if g > 0 {
+			sb.WriteByte(',')
+		}
+		sb.WriteString(hex.EncodeToString(outs[g]))
+	}
+	fmt.Printf("COLD %s\n", sb.String())
+}
+
+// coldExec performs the one call a spec describes.
+func coldExec(spec string) []byte {
 	f := strings.Split(spec, ":")
 	arg := func(i int) []byte {
 		b, err := hex.DecodeString(f[i])
@@ -170,10 +229,37 @@ func ColdMain(spec string) {
 		d := arg(1)
 		sig, err := k.Sign(nil, d, nil)
 		out = bo(err == nil && k.PublicKey().Verify(d, sig, nil))
+	case "decode":
+		p, err := secp256k1.NewPointFromBytes(arg(1))
+		if err != nil {
+			out = []byte("error")
+		} else {
+			out = p.UncompressedBytes()
+		}
+	case "recoverpoint":
+		p, err := secp256k1.RecoverPoint(sc(1), arg(2)[0])
+		if err != nil {
+			out = []byte("error")
+		} else {
+			out = p.UncompressedBytes()
+		}
+	case "asn1bytes":
+		k, err := secec.NewPublicKey(arg(1))
+		if err != nil {
+			panic(err)
+		}
+		out = k.ASN1Bytes()
+	case "schnorrpub":
+		k, err := bitcoin.NewSchnorrPublicKey(arg(1))
+		if err != nil {
+			out = []byte("error")
+		} else {
+			out = k.Point().UncompressedBytes()
+		}
 	default:
 		panic("unknown cold op " + f[0])
 	}
-	fmt.Printf("COLD %x\n", out)
+	return out
 }
 
 // coldCase builds a spec for op and the expected output.
@@ -255,6 +341,39 @@ func coldCase(rng *gen.Rng, op string, pool []namedPt) (spec string, want []byte
 		return fmt.Sprintf("parsepub:%x", oracle.SPKIWrite(oracle.EncodeUncompressed(Q))), oracle.EncodeCompressed(Q)
 	case "generate":
 		return fmt.Sprintf("generate:%x", dig), []byte{1}
+	case "decode":
+		if rng.Chance(1, 5) {
+			// an x that is not on the curve must stay an error
+			for {
+				x := rng.Below(bigP)
+				if oracle.LiftX(x, 0) == nil {
+					return fmt.Sprintf("decode:%02x%x", 2+rng.Intn(2), b32(x)), []byte("error")
+				}
+			}
+		}
+		return fmt.Sprintf("decode:%x", oracle.EncodeCompressed(Q)), oracle.EncodeUncompressed(Q)
+	case "recoverpoint":
+		// half of the cases use the second candidate x + n (ids 2, 3), which exists only for x < p - n
+		if rng.Bool() {
+			xs := specialXBelowPMinusN()
+			x := xs[rng.Intn(len(xs))]
+			id := 2 + rng.Intn(2)
+			if R := oracle.RecoverPoint(x, id); R != nil {
+				return fmt.Sprintf("recoverpoint:%x:%02x", b32(x), id), oracle.EncodeUncompressed(R)
+			}
+			return fmt.Sprintf("recoverpoint:%x:%02x", b32(x), id), []byte("error")
+		}
+		id := int(Q.Y.Bit(0))
+		xs := oracle.Mod(Q.X, n)
+		if R := oracle.RecoverPoint(xs, id); R != nil {
+			return fmt.Sprintf("recoverpoint:%x:%02x", b32(xs), id), oracle.EncodeUncompressed(R)
+		}
+		return fmt.Sprintf("recoverpoint:%x:%02x", b32(xs), id), []byte("error")
+	case "asn1bytes":
+		return fmt.Sprintf("asn1bytes:%x", oracle.EncodeCompressed(Q)), oracle.SPKIWrite(oracle.EncodeUncompressed(Q))
+	case "schnorrpub":
+		_, P := evenKey(d)
+		return fmt.Sprintf("schnorrpub:%x", b32(P.X)), oracle.EncodeUncompressed(P)
 	case "gtable":
 		return "gtable", gtableDigest()
 	}
@@ -334,6 +453,114 @@ func runColdStart(r *mon.Run, id string, n int, ops ...string) {
 				tail = tail[len(tail)-600:]
 			}
 			w.Fail(id+"/cold-start/"+op, fmt.Sprintf("%s as the FIRST library call of a fresh process returned %q (err %v), expected %x", op, got, err, want), "spec", spec, "child_output_tail", tail)
+		}
+	})
+}
+
+var specialXOnce struct {
+	sync.Once
+	xs []*big.Int
+}
+
+// specialXBelowPMinusN: values x < p - n for which x + n is (and some for which it is not) the
+// x-coordinate of a curve point - the inputs for which recovery ids 2 and 3 are meaningful.
+func specialXBelowPMinusN() []*big.Int {
+	specialXOnce.Do(func() {
+		lim := new(big.Int).Sub(bigP, bigN)
+		for i := int64(0); len(specialXOnce.xs) < 24 && i < 4000; i++ {
+			x := big.NewInt(i)
+			if x.Cmp(lim) >= 0 {
+				break
+			}
+			onCurve := oracle.LiftX(new(big.Int).Add(x, bigN), 0) != nil
+			if onCurve || i%7 == 0 {
+				specialXOnce.xs = append(specialXOnce.xs, x)
+			}
+		}
+	})
+	return specialXOnce.xs
+}
+
+// coldConcOps: the operations whose FIRST use in a process is made by many goroutines at once.
+var coldConcOps = map[string][]string{
+	"C03": {"decode", "sm"},
+	"C04": {"sm", "msmv", "dsm"},
+	"C05": {"sbm", "dsm", "pubkey", "sign", "verify"},
+	"C06": {"decode", "recoverpoint", "recoverpoint"},
+	"C07": {"verify", "btcverify", "recover"},
+	"C08": {"sign", "pubkey"},
+	"C10": {"ecdh", "pubkey", "decode"},
+	"C11": {"recover", "recoverpoint"},
+	"C12": {"asn1bytes", "parsepub"},
+	"C13": {"schnorrverify", "schnorrpub"},
+	"C14": {"schnorrsign"},
+	"C15": {"h2c"},
+	"C16": {"dsm", "msm", "msmv"},
+	"C18": {"sbm", "dsm", "decode", "asn1bytes", "sm", "recoverpoint"},
+	"C19": {"sbm", "sm", "msm", "dsm"},
+}
+
+// runConcurrentColdStart: n fresh processes; in each, G goroutines make the process's first
+// library calls simultaneously (one operation kind per process, distinct arguments per
+// goroutine; every third process mixes the kinds).  Children run one after the other: each
+// needs all the cores for itself.
+func runConcurrentColdStart(r *mon.Run, id string, n int, ops []string) {
+	exe, err := os.Executable()
+	if err != nil {
+		r.Note("concurrent cold-start monitor skipped: " + err.Error())
+		return
+	}
+	lc := "c" + id[1:]
+	pool := knownPointPool(r.Seed, 4)
+	r.Require(lc + ":cold-concurrent:processes")
+	r.Seq(lc+"/cold-start-concurrent", n, func(w *mon.W, i int) {
+		G := []int{16, 32, 8, 64, 24}[i%5]
+		K := 8
+		var specs []string
+		var wants [][]byte
+		for k := 0; k < K; k++ {
+			op := ops[(i/1)%len(ops)]
+			if i%3 == 2 {
+				op = ops[(i+k)%len(ops)]
+			}
+			sp, want := coldCase(w.Rng, op, pool)
+			specs = append(specs, strings.Fields(sp)[0])
+			wants = append(wants, want)
+		}
+		spec := fmt.Sprintf("conc|%d|%s", G, strings.Join(specs, "|"))
+		w.Case(true, []byte("cold-conc"), []byte(spec))
+		cmd := exec.Command(exe, "-cold", spec)
+		cmd.Env = append(os.Environ(), "GORACE=halt_on_error=0")
+		if np := []int{0, 0, 4, 0, 2, 0, 8, 32}[i%8]; np != 0 {
+			cmd.Env = append(cmd.Env, fmt.Sprintf("GOMAXPROCS=%d", np))
+		}
+		outb, err := cmd.CombinedOutput()
+		var got []string
+		for _, l := range strings.Split(string(outb), "\n") {
+			if strings.HasPrefix(l, "COLD ") {
+				got = strings.Split(strings.TrimSpace(l[5:]), ",")
+			}
+		}
+		w.Class(lc + ":cold-concurrent:processes")
+		w.ClassN(lc+":cold-concurrent:first-calls", int64(G))
+		if i < 1 {
+			w.Sample(map[string]any{"monitor": "cold-start-concurrent", "spec": spec})
+		}
+		tail := string(outb)
+		if len(tail) > 800 {
+			tail = tail[len(tail)-800:]
+		}
+		if err != nil || len(got) != G {
+			w.Fail(lc+"/cold-start-concurrent/crash", fmt.Sprintf("%d goroutines making the first library calls of a fresh process: the process failed (err %v)", G, err), "spec", spec, "child_output_tail", tail)
+			return
+		}
+		for g := 0; g < G; g++ {
+			if got[g] != hex.EncodeToString(wants[g%K]) {
+				op := strings.SplitN(specs[g%K], ":", 2)[0]
+				w.Fail(lc+"/cold-start-concurrent/"+op, fmt.Sprintf("%s as one of %d simultaneous FIRST library calls of a fresh process returned %s, expected %x (goroutine %d)", op, G, got[g], wants[g%K], g),
+					"spec", specs[g%K], "all", spec, "child_output_tail", tail)
+				return
+			}
 		}
 	})
 }
